@@ -57,15 +57,28 @@ struct Envs {
     fmt_envs: Vec<Environment<'static>>,
 }
 
+/// user filters, one per string-like argument type of value/argtypes.rs
+fn add_arg_filters(e: &mut Environment<'static>) {
+    e.add_filter("t_string", |s: String| format!("<{}>", s));
+    e.add_filter("t_cow", |s: std::borrow::Cow<'_, str>| format!("<{}>", s));
+    e.add_filter("t_input", |s: minijinja::value::StringInput<'_>| format!("<{}>", s.as_str()));
+    e.add_filter("t_str", |s: &str| format!("<{}>", s));
+    e.add_filter("t_value", |v: Value| format!("<{}>", v));
+    e.add_filter("t_optstring", |v: Option<String>| format!("<{}>", v.unwrap_or_default()));
+    e.add_filter("t_two", |a: String, b: String| format!("<{}{}>", a, b));
+}
+
 fn mk_envs() -> Envs {
     let mut envs = vec![];
     let mut fmt_envs = vec![];
     for m in MODES {
         let mut e = Environment::new();
         e.set_undefined_behavior(m);
+        add_arg_filters(&mut e);
         envs.push(e);
         let mut e = Environment::new();
         e.set_undefined_behavior(m);
+        add_arg_filters(&mut e);
         // a custom formatter (Emit then goes through Environment::format)
         e.set_formatter(|out, state, value| minijinja::escape_formatter(out, state, value));
         fmt_envs.push(e);
@@ -230,7 +243,8 @@ fn enc_instr(strict: &Environment, ins: &Instruction, out: &mut String) {
     }
 }
 
-/// `C <ctx value> F <0|1> N <count> <instr>…` or `-` when the template does not compile
+/// `C @ F <0|1> N <count> <instr>…` (`@` = the context of the preceding `ctx` line) or `-` when
+/// the template does not compile
 fn enc_prog(envs: &Envs, src: &str, ctx: &Value, custom_fmt: bool) -> String {
     let strict = &envs.envs[3];
     let r = guarded(|| {
@@ -242,8 +256,9 @@ fn enc_prog(envs: &Envs, src: &str, ctx: &Value, custom_fmt: bool) -> String {
         if !compiled.blocks.is_empty() {
             return None;
         }
-        let mut out = String::from("C ");
-        enc_value(strict, ctx, &mut out)?;
+        // the context is the shared one announced by the `ctx` line
+        let _ = ctx;
+        let mut out = String::from("C @");
         write!(out, " F {}", custom_fmt as u8).unwrap();
         let mut n = 0u32;
         let mut body = String::new();
@@ -261,6 +276,13 @@ fn enc_prog(envs: &Envs, src: &str, ctx: &Value, custom_fmt: bool) -> String {
     }
 }
 
+/// `ctx<TAB><value tokens>`: the context of the modelled streams
+fn emit_ctx(w: &mut impl std::io::Write, envs: &Envs) {
+    let mut out = String::new();
+    enc_value(&envs.envs[3], &ctx_small(), &mut out).expect("context inside the model domain");
+    writeln!(w, "ctx\t{}", out).unwrap();
+}
+
 fn emit(w: &mut impl std::io::Write, envs: &Envs, stream: &str, id: usize, label: &str, src: &str, ctx: &Value, model: bool) {
     debug_assert!(!src.contains('\t') && !src.contains('\n'));
     let es = if stream == "fmt" { &envs.fmt_envs } else { &envs.envs };
@@ -274,6 +296,7 @@ fn emit(w: &mut impl std::io::Write, envs: &Envs, stream: &str, id: usize, label
 //   print / iterate : fail under SemiStrict+Strict, otherwise ok
 //   truth           : fail under Strict only
 //   access          : fail everywhere except Chainable
+//   coerce          : string coercion of an undefined in filters/functions and `~`: like print
 //   never           : ok in all four modes
 //   model           : not named by the property statement (string coercion, comparisons, `in`,
 //                     slices, silent undefined, filters): only monotonicity and the Lean model
@@ -291,10 +314,33 @@ const SITES: &[(&str, &str, &str)] = &[
     ("print", "[{{ s1.x }}]", "[]"),
     ("print", "[{{ u and i1 }}]", "[]"),
     ("print", "[{{ u if b1 else 1 }}]", "[]"),
-    ("model", "[{{ u ~ 1 }}]", "[1]"),
-    ("model", "[{{ 1 ~ u }}]", "[1]"),
-    ("model", "[{{ u|string }}]", "[]"),
-    ("model", "[{{ u|upper }}]", "[]"),
+    ("coerce", "[{{ u ~ 1 }}]", "[1]"),
+    ("coerce", "[{{ 1 ~ u }}]", "[1]"),
+    ("coerce", "[{{ a.b ~ a.b }}]", "[]"),
+    ("coerce", "[{{ u|string }}]", "[]"),
+    ("coerce", "[{{ u|upper }}]", "[]"),
+    ("coerce", "[{{ u|lower }}]", "[]"),
+    ("coerce", "[{{ u|title }}]", "[]"),
+    ("coerce", "[{{ u|capitalize }}]", "[]"),
+    ("coerce", "[{{ u|safe }}]", "[]"),
+    ("coerce", "[{{ u|trim }}]", "[]"),
+    ("coerce", "[{{ u|indent(2) }}]", "[]"),
+    ("coerce", "[{{ u|replace('a', 'b') }}]", "[]"),
+    ("coerce", "[{{ 'aca'|replace('a', u) }}]", "[c]"),
+    ("coerce", "[{{ 'ac'|replace(u, '-') }}]", "[-a-c-]"),
+    ("coerce", "[{{ u is startingwith('a') }}]", "[False]"),
+    ("coerce", "[{{ s1 is startingwith(u) }}]", "[True]"),
+    ("coerce", "[{{ s1 is endingwith(u) }}]", "[True]"),
+    ("coerce", "[{{ lm|selectattr(u)|list }}]", "[[]]"),
+    ("coerce", "[{{ u|t_string }}]", "[<>]"),
+    ("coerce", "[{{ u|t_cow }}]", "[<>]"),
+    ("coerce", "[{{ u|t_input }}]", "[<>]"),
+    ("coerce", "[{{ s1|t_two(u) }}]", "[<ab>]"),
+    ("coerce", "[{{ a.b|t_two(s1) }}]", "[<ab>]"),
+    ("model", "[{{ u|t_str }}]", ""),
+    ("model", "[{{ u|t_value }}]", ""),
+    ("model", "[{{ u|t_optstring }}]", ""),
+    ("model", "[{{ (1 if b0)|t_string }}|{{ (1 if b0)|t_cow }}|{{ (1 if b0)|t_input }}]", ""),
     ("model", "[{{ u|int }}]", "[0]"),
     ("iterate", "[{% for x in u %}x{% endfor %}]", "[]"),
     ("iterate", "[{% for x in u %}x{% else %}e{% endfor %}]", "[e]"),
@@ -606,7 +652,7 @@ fn gen_calls(tier: &str, f: &mut dyn FnMut(String, String)) {
     }
 }
 
-const POOL: &[&str] = &["u", "(1 if b0)", "none", "z", "i1", "s1", "l1", "m1", "b1", "[u]", "f1"];
+const POOL: &[&str] = &["u", "(1 if b0)", "none", "i1", "s1", "z", "l1", "m1", "b1", "[u]", "f1"];
 
 fn all_names() -> Vec<(&'static str, &'static str)> {
     let mut v: Vec<(&str, &str)> = vec![];
@@ -628,10 +674,15 @@ fn gen_sweep(tier: &str, f: &mut dyn FnMut(String, String)) {
         for recv in POOL {
             let mut arg_lists: Vec<Vec<&str>> = vec![vec![]];
             let mut frontier: Vec<Vec<&str>> = vec![vec![]];
-            for _ in 0..max_arity {
+            for depth in 0..max_arity {
                 let mut next = vec![];
+                // third arguments only from the small pool
+                let pool: &[&str] = if depth >= 2 { &POOL[..5] } else { POOL };
+                if depth >= 2 {
+                    frontier.retain(|a| a.iter().all(|x| POOL[..5].contains(x)));
+                }
                 for a in &frontier {
-                    for p in POOL {
+                    for p in pool {
                         let mut x = a.clone();
                         x.push(*p);
                         next.push(x);
@@ -674,56 +725,112 @@ struct Gen {
     locals: Vec<String>,
     macros: Vec<(String, usize)>,
     rich: bool, // also use constructs outside the Lean model (macros, more filters, // and %)
+    /// percentage of variable references that go to a missing name
+    missing_pct: u64,
+    /// percentage of operands generated without regard to the operator's type expectations
+    wild_pct: u64,
 }
 
 const DEFINED: &[&str] = &["i1", "i2", "z", "s1", "s2", "s3", "b1", "b0", "n", "l1", "l0", "ls", "m1", "a", "lm"];
+const INTS: &[&str] = &["i1", "i2", "z"];
+const CONTS: &[&str] = &["l1", "l0", "ls", "s1", "s3", "m1", "a", "lm"];
 const MISSING: &[&str] = &["u", "u2", "w"];
 const ATTRS: &[&str] = &["k", "n", "q", "x", "b", "c", "v", "zz"];
-const MODEL_FILTERS: &[&str] = &["default(1)", "default", "d(s1)", "default(2, true)", "default(2, u)", "int", "string", "bool", "list", "upper", "lower", "length", "count", "attr('k')", "attr('b')", "attr(0)"];
-const RICH_FILTERS: &[&str] = &["first", "last", "join(',')", "join(u)", "sum", "trim", "title", "reverse", "sort", "unique|list", "min", "max", "abs", "float", "items|list", "dictsort", "tojson", "safe", "e", "map(attribute='k')|list", "map('upper')|list", "select|list", "select('odd')|list", "reject('none')|list", "batch(2)|list", "replace('a', u)", "replace(u, 'a')", "capitalize", "round", "selectattr('k')|list", "map(attribute='k', default=u)|list", "indent(2)", "pprint", "lines", "split(',')", "urlencode", "format(u)", "zip(u)|list", "chain(u)|list", "groupby('k')|list"];
-const MODEL_TESTS: &[&str] = &["defined", "undefined", "none", "true", "false", "eq(1)", "ne(u)", "lt(2)", "gt(u)", "in(l1)", "in(u)", "ge(1)", "le(s1)"];
-const RICH_TESTS: &[&str] = &["odd", "even", "string", "number", "sequence", "mapping", "iterable", "divisibleby(2)", "divisibleby(u)", "startingwith('a')", "startingwith(u)", "sameas(u)", "boolean", "integer", "float", "lower", "safe", "filter", "test"];
+const MODEL_FILTERS: &[&str] = &["default(1)", "default", "d(s1)", "default(2, true)", "default(2, u)", "int", "string", "bool", "list", "upper", "lower", "length", "count", "attr('k')", "attr('b')", "attr(0)", "first", "last", "join", "join('-')", "join(u)", "min", "max", "sum", "trim"];
+const RICH_FILTERS: &[&str] = &["title", "reverse", "sort", "unique|list", "abs", "float", "items|list", "dictsort", "tojson", "safe", "e", "map(attribute='k')|list", "map('upper')|list", "select|list", "select('odd')|list", "reject('none')|list", "batch(2)|list", "replace('a', u)", "replace(u, 'a')", "capitalize", "round", "selectattr('k')|list", "map(attribute='k', default=u)|list", "indent(2)", "pprint", "lines", "split(',')", "urlencode", "format(u)", "zip(u)|list", "chain(u)|list", "groupby('k')|list"];
+const MODEL_TESTS: &[&str] = &["defined", "undefined", "none", "true", "false", "eq(1)", "ne(u)", "lt(2)", "gt(u)", "in(l1)", "in(u)", "ge(1)", "le(s1)", "string", "number", "sequence", "mapping", "boolean", "integer"];
+const RICH_TESTS: &[&str] = &["odd", "even", "iterable", "divisibleby(2)", "divisibleby(u)", "startingwith('a')", "startingwith(u)", "sameas(u)", "float", "lower", "safe", "filter", "test"];
+
+#[derive(Clone, Copy, PartialEq)]
+enum Ty {
+    Any,
+    Int,
+    Cont,
+}
 
 impl Gen {
-    fn var(&mut self) -> String {
-        let r = self.rng.below(10);
-        if r < 3 {
-            self.rng.pick(MISSING).to_string()
-        } else if r < 5 && !self.locals.is_empty() {
+    fn var(&mut self, ty: Ty) -> String {
+        if self.rng.below(100) < self.missing_pct {
+            return self.rng.pick(MISSING).to_string();
+        }
+        if ty == Ty::Any && self.rng.chance(1, 4) && !self.locals.is_empty() {
             let i = self.rng.below(self.locals.len() as u64) as usize;
-            self.locals[i].clone()
-        } else {
-            self.rng.pick(DEFINED).to_string()
+            return self.locals[i].clone();
+        }
+        match ty {
+            Ty::Any => self.rng.pick(DEFINED).to_string(),
+            Ty::Int => self.rng.pick(INTS).to_string(),
+            Ty::Cont => self.rng.pick(CONTS).to_string(),
         }
     }
 
-    fn konst(&mut self) -> String {
-        match self.rng.below(8) {
-            0 => "none".into(),
-            1 => "true".into(),
-            2 => "false".into(),
-            3 => "'ab'".into(),
-            4 => "''".into(),
-            5 => "'k'".into(),
-            _ => format!("{}", self.rng.below(4)),
+    fn konst(&mut self, ty: Ty) -> String {
+        match ty {
+            Ty::Int => format!("{}", self.rng.below(4)),
+            Ty::Cont => (*self.rng.pick(&["'ab'", "''", "[]", "[1, 'k']", "{'k': 2}"])).to_string(),
+            Ty::Any => match self.rng.below(8) {
+                0 => "none".into(),
+                1 => "true".into(),
+                2 => "false".into(),
+                3 => "'ab'".into(),
+                4 => "''".into(),
+                5 => "'k'".into(),
+                _ => format!("{}", self.rng.below(4)),
+            },
         }
     }
 
     fn expr(&mut self, d: u32) -> String {
+        self.expr_t(d, Ty::Any)
+    }
+
+    fn expr_t(&mut self, d: u32, ty: Ty) -> String {
+        let ty = if self.rng.below(100) < self.wild_pct { Ty::Any } else { ty };
         if d == 0 || self.rng.chance(1, 5) {
-            return if self.rng.chance(2, 3) { self.var() } else { self.konst() };
+            return if self.rng.chance(2, 3) { self.var(ty) } else { self.konst(ty) };
         }
         let d1 = d - 1;
+        match ty {
+            Ty::Int => {
+                return match self.rng.below(7) {
+                    0 | 1 => {
+                        let op = *self.rng.pick(&["+", "-", "*"]);
+                        format!("({} {} {})", self.expr_t(d1, Ty::Int), op, self.expr_t(d1, Ty::Int))
+                    }
+                    2 => format!("{}|{}", self.postfix_t(d1, Ty::Cont), self.rng.pick(&["length", "count"])),
+                    3 => format!("{}|default({})", self.var(Ty::Int), self.rng.below(4)),
+                    4 => format!("{}|int", self.postfix_t(d1, Ty::Int)),
+                    5 => format!("({} if {} else {})", self.expr_t(d1, Ty::Int), self.expr(d1), self.expr_t(d1, Ty::Int)),
+                    _ => self.var(Ty::Int),
+                };
+            }
+            Ty::Cont => {
+                return match self.rng.below(8) {
+                    0 => format!("[{}, {}]", self.expr(d1), self.expr(d1)),
+                    1 => format!("{{'k': {}, 'b': {}}}", self.expr(d1), self.expr(d1)),
+                    2 => {
+                        let (a, b) = (self.bound(), self.bound());
+                        format!("{}[{}:{}]", self.postfix_t(d1, Ty::Cont), a, b)
+                    }
+                    3 => format!("{}|list", self.postfix_t(d1, Ty::Cont)),
+                    4 => format!("{}|default({})", self.var(Ty::Cont), self.konst(Ty::Cont)),
+                    5 => format!("({} ~ {})", self.expr(d1), self.expr(d1)),
+                    6 => format!("({} + {})", self.rng.pick(&["l1", "ls", "l0", "[i1]"]), self.rng.pick(&["l1", "ls", "[u]", "[1]"])),
+                    _ => self.var(Ty::Cont),
+                };
+            }
+            Ty::Any => {}
+        }
         let top = if self.rich { 30 } else { 24 };
         match self.rng.below(top) {
             0 | 1 => format!("{}.{}", self.postfix(d1), self.rng.pick(ATTRS)),
-            2 => format!("{}[{}]", self.postfix(d1), self.expr(d1.min(1))),
+            2 => format!("{}[{}]", self.postfix_t(d1, Ty::Cont), self.expr_t(d1.min(1), Ty::Int)),
             3 => {
                 let (a, b) = (self.bound(), self.bound());
                 if self.rng.chance(1, 3) {
-                    format!("{}[{}:{}:{}]", self.postfix(d1), a, b, self.bound())
+                    format!("{}[{}:{}:{}]", self.postfix_t(d1, Ty::Cont), a, b, self.bound())
                 } else {
-                    format!("{}[{}:{}]", self.postfix(d1), a, b)
+                    format!("{}[{}:{}]", self.postfix_t(d1, Ty::Cont), a, b)
                 }
             }
             4 => format!("(not {})", self.expr(d1)),
@@ -737,16 +844,14 @@ impl Gen {
             }
             11 => {
                 let op1 = *self.rng.pick(&["==", "<", "<=", ">", "!="]);
-                let op2 = *self.rng.pick(&["<", "<=", ">=", "in", "not in", "=="]);
-                format!("({} {} {} {} {})", self.expr(d1), op1, self.expr(d1), op2, self.expr(d1))
+                let op2 = *self.rng.pick(&["<", "<=", ">=", "==", "in", "not in"]);
+                let third = if op2.ends_with("in") { self.expr_t(d1, Ty::Cont) } else { self.expr(d1) };
+                format!("({} {} {} {} {})", self.expr(d1), op1, self.expr(d1), op2, third)
             }
-            12 => format!("({} in {})", self.expr(d1), self.expr(d1)),
-            13 => format!("({} not in {})", self.expr(d1), self.expr(d1)),
+            12 => format!("({} in {})", self.expr(d1), self.expr_t(d1, Ty::Cont)),
+            13 => format!("({} not in {})", self.expr(d1), self.expr_t(d1, Ty::Cont)),
             14 | 15 => format!("({} ~ {})", self.expr(d1), self.expr(d1)),
-            16 => {
-                let op = *self.rng.pick(&["+", "-", "*"]);
-                format!("({} {} {})", self.expr(d1), op, self.expr(d1))
-            }
+            16 => self.expr_t(d, Ty::Int),
             17 | 18 => {
                 let t = if self.rich && self.rng.chance(1, 2) { *self.rng.pick(RICH_TESTS) } else { *self.rng.pick(MODEL_TESTS) };
                 let neg = if self.rng.chance(1, 4) { "not " } else { "" };
@@ -754,36 +859,34 @@ impl Gen {
             }
             19 | 20 | 21 => {
                 let f = if self.rich && self.rng.chance(1, 2) { *self.rng.pick(RICH_FILTERS) } else { *self.rng.pick(MODEL_FILTERS) };
-                format!("{}|{}", self.postfix(d1), f)
+                let needs_cont = ["length", "count", "first", "last", "join", "join('-')", "join(u)", "min", "max", "list", "reverse", "sort", "unique|list", "select|list", "batch(2)|list", "zip(u)|list", "chain(u)|list"].contains(&f);
+                let needs_int = ["sum", "abs", "round", "select('odd')|list"].contains(&f);
+                let recv = if needs_cont { self.postfix_t(d1, Ty::Cont) } else if needs_int && f != "sum" { self.postfix_t(d1, Ty::Int) } else if f == "sum" { (*self.rng.pick(&["l1", "l0", "u", "[i1, u]", "[1, 2]"])).to_string() } else { self.postfix(d1) };
+                format!("{}|{}", recv, f)
             }
-            22 => format!("[{}, {}]", self.expr(d1), self.expr(d1)),
+            22 => self.expr_t(d, Ty::Cont),
             23 => format!("{{'k': {}, 'b': {}}}", self.expr(d1), self.expr(d1)),
             24 => {
                 let op = *self.rng.pick(&["//", "%", "/", "**"]);
-                format!("({} {} {})", self.expr(d1), op, self.expr(d1.min(1)))
+                format!("({} {} {})", self.expr_t(d1, Ty::Int), op, self.expr_t(d1.min(1), Ty::Int))
             }
-            25 => format!("(-{})", self.postfix(d1)),
+            25 => format!("(-{})", self.postfix_t(d1, Ty::Int)),
             26 if !self.macros.is_empty() => {
                 let i = self.rng.below(self.macros.len() as u64) as usize;
                 let (name, n) = self.macros[i].clone();
                 let mut args = vec![];
+                let mut kw = false;
                 for j in 0..n {
-                    if self.rng.chance(3, 4) {
-                        if self.rng.chance(1, 4) { args.push(format!("p{}={}", j, self.expr(d1))) } else { args.push(self.expr(d1)) }
-                    } else {
+                    if !self.rng.chance(4, 5) {
                         break;
                     }
+                    kw = kw || self.rng.chance(1, 4);
+                    if kw { args.push(format!("p{}={}", j, self.expr(d1))) } else { args.push(self.expr(d1)) }
                 }
-                // keyword after positional only
-                let mut seen_kw = false;
-                args.retain(|a| {
-                    let kw = a.starts_with('p') && a.contains('=') && !a.contains("==");
-                    if seen_kw && !kw { false } else { seen_kw |= kw; true }
-                });
                 format!("{}({})", name, args.join(", "))
             }
-            27 => format!("range({})|list", self.expr(d1.min(1))),
-            28 => format!("dict(x={}, **{})", self.expr(d1), self.postfix(d1)),
+            27 => format!("range({})|list", self.expr_t(d1.min(1), Ty::Int)),
+            28 => format!("dict(x={}, **{})", self.expr(d1), self.rng.pick(&["m1", "a", "u", "{}", "n"])),
             _ => format!("{}|default({}, {})", self.postfix(d1), self.expr(d1), self.expr(d1)),
         }
     }
@@ -801,11 +904,13 @@ impl Gen {
 
     /// an expression that can take a postfix (`.x`, `[..]`, `|f`, `is t`)
     fn postfix(&mut self, d: u32) -> String {
-        let e = self.expr(d);
-        let simple = e.chars().all(|c| c.is_ascii_alphanumeric() || c == '_' || c == '.')
-            || e.ends_with(')') && e.starts_with('(')
-            || e.ends_with(']') && !e.contains(' ');
-        if simple && !e.starts_with('-') && !e.chars().next().map_or(false, |c| c.is_ascii_digit()) { e } else { format!("({})", e) }
+        self.postfix_t(d, Ty::Any)
+    }
+
+    fn postfix_t(&mut self, d: u32, ty: Ty) -> String {
+        let e = self.expr_t(d, ty);
+        let ident = e.chars().all(|c| c.is_ascii_alphanumeric() || c == '_') && !e.chars().next().map_or(true, |c| c.is_ascii_digit());
+        if ident { e } else { format!("({})", e) }
     }
 
     fn text(&mut self) -> String {
@@ -839,6 +944,7 @@ impl Gen {
                 let v = format!("x{}", self.locals.len());
                 let it = self.expr(ed);
                 let filt = if self.rng.chance(1, 5) { format!(" if {}", self.expr(1)) } else { String::new() };
+                let it = if self.rng.chance(1, 6) { it } else { self.expr_t(ed, Ty::Cont) };
                 self.locals.push(v.clone());
                 let body = self.body(d - 1, 2);
                 self.locals.pop();
@@ -879,7 +985,7 @@ impl Gen {
                 let saved = self.locals.clone();
                 for j in 0..n {
                     let p = format!("p{}", j);
-                    if self.rng.chance(1, 3) { params.push(format!("{}={}", p, self.konst())) } else { params.push(p.clone()) }
+                    if self.rng.chance(1, 3) { params.push(format!("{}={}", p, self.konst(Ty::Any))) } else { params.push(p.clone()) }
                     self.locals.push(p);
                 }
                 // defaults after required only
@@ -935,6 +1041,7 @@ fn main() {
             let src = args.get(3).cloned().unwrap_or_default();
             let small = matches!(stream, "site" | "fmt" | "prog");
             let ctx = if small { ctx_small() } else { ctx_big() };
+            emit_ctx(&mut w, &envs);
             emit(&mut w, &envs, stream, 0, "replay", &src, &ctx, small);
         }
         "gen" => {
@@ -942,6 +1049,7 @@ fn main() {
             let small = ctx_small();
             let big = ctx_big();
             let mut id = 0usize;
+            emit_ctx(&mut w, &envs);
             for (class, src, expect) in SITES {
                 emit(&mut w, &envs, "site", id, &format!("{}:{}", class, hx(expect)), src, &small, true);
                 id += 1;
@@ -962,11 +1070,13 @@ fn main() {
                 emit(&mut w, &envs, "sweep", id, label, src, &big, false);
                 id += 1;
             }
-            let n_model = if tier == "thorough" { 30000 } else { 1500 };
-            let n_rich = if tier == "thorough" { 30000 } else { 1500 };
-            let mut g = Gen { rng: Rng::new(seed_from_env()), locals: vec![], macros: vec![], rich: false };
+            let n_model = if tier == "thorough" { 100000 } else { 2000 };
+            let n_rich = if tier == "thorough" { 100000 } else { 2000 };
+            let mut g = Gen { rng: Rng::new(seed_from_env()), locals: vec![], macros: vec![], rich: false, missing_pct: 30, wild_pct: 10 };
             for i in 0..(n_model + n_rich) {
                 g.rich = i >= n_model;
+                g.missing_pct = [8, 15, 30, 50][i % 4];
+                g.wild_pct = [3, 10, 25][(i / 4) % 3];
                 let src = g.program();
                 emit(&mut w, &envs, "prog", id, if g.rich { "rich" } else { "core" }, &src, &small, true);
                 id += 1;
